@@ -1090,6 +1090,74 @@ def _under_branch(pos):
     return "/b" in p
 
 
+_POS_TOKEN = re.compile(r"^([a-z])(\d*)\.(\d+)t?$")
+
+
+def _after(pos, q):
+    """True iff statement position q follows position pos in program order (False if unordered: sibling branches,
+    or one encloses the other)."""
+    a = [_POS_TOKEN.match(t) for t in pos.split("#")[0].split("/")]
+    b = [_POS_TOKEN.match(t) for t in q.split("#")[0].split("/")]
+    for x, y in zip(a, b):
+        if x is None or y is None:
+            return False
+        if (x.group(1), x.group(2)) != (y.group(1), y.group(2)):
+            # different sub-blocks of one statement: the handler of a try runs after everything inside the tried statement
+            return y.group(1) == "h" and x.group(1) != "h"
+        if x.group(3) != y.group(3):
+            return int(y.group(3)) > int(x.group(3))
+    return False
+
+
+_BRANCH_NAME = re.compile(r"^(?:parallel-branch|map-item)-(\d+)$")
+
+
+def _branch_chain(pos):
+    """[(map/parallel position, branch index), ...] of the branches that enclose `pos`, innermost first."""
+    out = []
+    p = pos.split("#")[0]
+    while True:
+        c = ctx_pos(p)
+        if c[0] == "root":
+            return out
+        if c[0] == "branch":
+            out.append((c[1], c[2]))
+        p = c[1]
+
+
+def _branch_id(ix, par_pos, index):
+    """Operation id of branch `index` of the map/parallel at `par_pos` (None if it never sent a record)."""
+    pid = ix.pos_id(par_pos)
+    for oid, info in ix.info.items():
+        if info.get("parent") == pid:
+            m = _BRANCH_NAME.match(info.get("name") or "")
+            if m and int(m.group(1)) == index:
+                return oid
+    return None
+
+
+def _concurrent_done(ix, pos, done, parent):
+    """True iff some operation of `done` lies in a sibling branch of a map/parallel that encloses `pos`."""
+    mine = dict(_branch_chain(pos))  # parallel pos -> my branch index
+    if not mine:
+        return False
+    par_ids = {ix.pos_id(pp): pp for pp in mine}
+    for oid in done:
+        cur, seen = oid, 0
+        while cur and seen < 64:
+            info = ix.info.get(cur)
+            if info is None:
+                break
+            par = info.get("parent")
+            if par in par_ids:
+                m = _BRANCH_NAME.match(info.get("name") or "")
+                if m and int(m.group(1)) != mine[par_ids[par]]:
+                    return True
+            cur = par
+            seen += 1
+    return False
+
+
 def check_c17(ix, cfg):
     out = []
     w = ix.w
@@ -1117,14 +1185,18 @@ def check_c17(ix, cfg):
                 done |= closure(oid)
         evs = by_inv.get(inv, [])
         first = not done
-        begins = [(e["s"], ix.pos_id(e["pos"])) for _, e in evs if e["k"] == "call-begin"]
+        begins = [(e["s"], ix.pos_id(e["pos"]), e["pos"]) for _, e in evs if e["k"] == "call-begin"]
         wfc_inner = {}
         for n, e in evs:
             if e["k"] != "log-call":
                 continue
             pos = e["pos"]
-            if _under_branch(pos):
-                continue
+            if _under_branch(pos) and (first or _concurrent_done(ix, pos, done, parent)):
+                # program order is undefined between sibling branches: a log call in a branch is judged only if no
+                # operation that had completed lies in a sibling branch of any enclosing map/parallel (then every completed
+                # operation is ordered with respect to the call: before the map/parallel, in this branch, or after it)
+                if not first:
+                    continue
             nxt = None
             for m in range(n + 1, min(len(trace), n + 400)):
                 if trace[m]["t"] == e["t"] and trace[m]["i"] == inv:
@@ -1133,21 +1205,33 @@ def check_c17(ix, cfg):
             if nxt is None:
                 continue  # the invocation was killed inside the log call: nothing to judge
             emitted = bool(nxt["k"] == "log" and nxt["msg"] == "L:" + pos)
-            silent_expected = (not first) and any(s > e["s"] and oid in done for s, oid in begins)
+            # (a branch resubmitted in process runs its body again: a later call-begin counts only if its position
+            # follows the log call in program order)
+            silent_expected = (not first) and any(s > e["s"] and oid in done and _after(pos, q) for s, oid, q in begins)
             if not silent_expected and not first:
                 # a log call inside the body of a context that had itself completed (re-traversed because its
                 # result was replaced by a summary) is code an earlier invocation already ran
                 p_ = pos.split("#")[0]
                 while True:
                     cp = ctx_pos(p_)
-                    if cp[0] != "child":
+                    if cp[0] == "root":
                         break
-                    if info["hist"].get(ix.pos_id(cp[1])) in TERMINAL:
+                    cid = ix.pos_id(cp[1]) if cp[0] == "child" else _branch_id(ix, cp[1], cp[2])
+                    if info["hist"].get(cid) in TERMINAL:
                         silent_expected = True
                         break
                     p_ = cp[1]
             if silent_expected and emitted:
-                out.append(V("C17", "logged-during-replay", f"invocation {inv}: log call at {pos} precedes an operation already complete in "
+                cls_ = "logged-during-replay"
+                # known finding: the replay status is one flag per invocation; a branch that the timer thread resubmits in
+                # process runs its body again from the top after the flag has moved to NEW
+                for par_pos, bidx in _branch_chain(pos):
+                    bpos = f"{par_pos}/b{bidx}"
+                    runs = sum(1 for _, x in evs if x["k"] == "body-enter" and x.get("bkind") == "branch" and x["pos"] == bpos
+                               and x["s"] < e["s"])
+                    if runs >= 2:
+                        cls_ = "logged-again-after-in-process-resubmission"
+                out.append(V("C17", cls_, f"invocation {inv}: log call at {pos} precedes an operation already complete in "
                              f"the history but was emitted", pos=pos, seq=e["s"]))
             elif not silent_expected and not emitted:
                 cls_ = "silent-after-replay"
